@@ -110,52 +110,11 @@ theorem kill_time_in_the_past_ignored (s s1 : Sys) (a i b : Nat) (t T : Rat) (x1
     applyOp s s1 a i t x1 (.killTime b T) false = some s1 := by
   simp [applyOp, hset.1, hset.2, hT]
 
-/-- a suspended actor cannot run (suspended at an earlier date) -/
-theorem canRun_suspended (x : Actor) (t : Rat) (hs : x.suspended = true) (ht : x.suspendedAt ≠ some t) :
-    x.canRun t = false := by
-  unfold Actor.canRun
-  simp [hs, ht]
-
-theorem assignHandle_self (s : Sys) (a : Nat) :
-    ((s.assignHandle a).acts a).suspended = (s.acts a).suspended ∧
-    ((s.assignHandle a).acts a).suspendedAt = (s.acts a).suspendedAt ∧
-    ((s.assignHandle a).acts a).life = (s.acts a).life ∧ ((s.assignHandle a).acts a).wake = (s.acts a).wake := by
-  unfold Sys.assignHandle
-  split
-  · rename_i c hc
-    by_cases h : a = c
-    · subst h; simp [upd]
-    · simp [upd, h]
-  · simp
-
 /-- **a suspended actor makes no progress (one-step form).**  No line of a live actor that was suspended at an earlier
 date is accepted: neither reaching its next op nor returning from a join, until a `resume` clears the flag. -/
-theorem suspended_makes_no_progress (s : Sys) (a : Nat) (t : Rat) (hl : (s.acts a).life = .live)
+theorem suspended_makes_no_progress_step (s : Sys) (a : Nat) (t : Rat) (hl : (s.acts a).life = .live)
     (hs : (s.acts a).suspended = true) (ht : (s.acts a).suspendedAt ≠ some t) (i : Nat) (sk : Bool) :
-    step s (.op a i t sk) = [] ∧ step s (.joined a i t) = [] := by
-  have h0 := assignHandle_self s a
-  constructor
-  · simp only [step]
-    split
-    · rfl
-    · split
-      · rfl
-      · split
-        · rfl
-        · have c1 : ((s.assignHandle a).acts a).canRun t = false := by
-            apply canRun_suspended
-            · rw [h0.1]; exact hs
-            · rw [h0.2.1]; exact ht
-          have c2 : ((s.assignHandle a).acts a).lastBreath t = false := by
-            unfold Actor.lastBreath; rw [h0.2.2.1, hl]; simp
-          simp [c1, c2]
-  · simp only [step]
-    split
-    · rfl
-    · have c1 : (s.acts a).canRun t = false := canRun_suspended _ t hs ht
-      have c2 : (s.acts a).lastBreath t = false := by
-        unfold Actor.lastBreath; rw [hl]; simp
-      simp [c1, c2]
+    step s (.op a i t sk) = [] ∧ step s (.joined a i t) = [] := suspended_step_none s a t hl hs ht i sk
 
 /-- `resume` of an actor that is not suspended changes nothing (`if (not suspended_) return;`) -/
 theorem resume_not_suspended_noop (s s1 : Sys) (a i b : Nat) (t : Rat) (x1 : Actor)
